@@ -13,7 +13,7 @@ Inductive outcome : Set :=
 | Done (nfail : N) (fixed : bool)  (* ran to completion; scan: nfail failures reported; fix: file rewritten iff fixed *)
 | PluginErr (nfail : N)            (* BadPluginError / BadPluginFixError raised; scan: nfail failures were collected before *)
 | TokErr                           (* BadTokenizationError raised by the parser *)
-| DecodeErr.                       (* the file is not valid UTF-8: UnicodeDecodeError (a ValueError) in FileSourceProvider *)
+| DecodeErr.                       (* the file is not valid UTF-8: UnicodeDecodeError in FileSourceProvider, reported per file, always fatal *)
 
 Inductive event : Set :=
 | EFailures (file n : N)   (* n "file:line:col: ID" lines on stdout *)
@@ -46,7 +46,7 @@ Definition step (m : mode) (coe : bool) (s : st) (fo : N * outcome) : st + list 
   | TokErr =>
       if coe then inl (mkst (did_fix s) true (nfailures s) (out s ++ [EShortError f]))
       else inr (out s ++ [EUnexpected])
-  | DecodeErr => inr (out s ++ [EConfigError])
+  | DecodeErr => inr (out s ++ [ELongError f])
   end.
 
 Fixpoint loop (m : mode) (coe : bool) (s : st) (fs : list (N * outcome)) : st + list event :=
